@@ -79,12 +79,13 @@ Definition ocb (o : option expr) : bool := match o with Some x => ecb x | None =
 Definition cok (e : expr) : bool :=
   match e with
   | Slice a b c => ocb a && ocb b && ocb c
+  | GeneratorExp _ _ => gen_core e
   | _ => core e
   end.
 Definition T (e : expr) : Prop := forall slot, cok e = true -> norm (utoks slot DQ e) = pp slot e.
 
 Lemma core_cok e : core e = true -> cok e = true.
-Proof. destruct e; intro H; try exact H. discriminate H. Qed.
+Proof. destruct e; intro H; try exact H; discriminate H. Qed.
 Lemma ecb_cok e : ecb e = true -> cok e = true.
 Proof. intro H. apply andb_prop in H as [H _]. apply core_cok. exact H. Qed.
 
@@ -256,13 +257,16 @@ Proof.
     nrm. f_equal; [destruct a as [x|]; [apply (H _ (ecb_cok _ Ha))|reflexivity]|]. f_equal.
     f_equal; [destruct b as [x|]; [apply (H0 _ (ecb_cok _ Hb))|reflexivity]|]. f_equal.
     destruct c as [x|]; [apply (H1 _ (ecb_cok _ Hcc))|reflexivity].
-  - (* Call *) cbn [cok core] in Hc. apply andb_prop in Hc as [Hc Hk]. apply andb_prop in Hc as [Hf Ha].
-    assert (G : norm (join [TP ","] (map (fun x => utoks slot_Call_arg DQ x) args ++ map (kw_toks U DQ) kws)) =
-                join [PK ","] (map (pp slot_Call_arg) args ++ map kwp kws)).
-    { rewrite norm_join, map_app, (T_map core core_cok _ args H Ha), (tie_kws kws H0 Hk). reflexivity. }
-    nrm. rewrite (IHe _ (ecb_cok _ Hf)). f_equal. f_equal. f_equal.
-    destruct args as [|x [|y r]]; [exact G| |exact G]. destruct kws; [|exact G].
-    inversion H as [|? ? Hx _]; subst. cbn [forallb] in Ha. apply andb_prop in Ha as [Hax _]. apply (Hx _ (core_cok _ Hax)).
+  - (* Call *) assert (Hc' : core (Call e args kws) = true) by exact Hc. clear Hc.
+    apply core_call in Hc' as [Hf [[x [gs [-> [-> Hg]]]]|[Ha Hk]]].
+    + (* f(x for x in y): the generator expression stands bare *)
+      inversion H as [|? ? Hx _]; subst. nrm. rewrite (IHe _ (ecb_cok _ Hf)), (Hx slot_Call_onlyarg Hg). reflexivity.
+    + assert (G : norm (join [TP ","] (map (fun x => utoks slot_Call_arg DQ x) args ++ map (kw_toks U DQ) kws)) =
+                  join [PK ","] (map (pp slot_Call_arg) args ++ map kwp kws)).
+      { rewrite norm_join, map_app, (T_map core core_cok _ args H Ha), (tie_kws kws H0 Hk). reflexivity. }
+      nrm. rewrite (IHe _ (ecb_cok _ Hf)). f_equal. f_equal. f_equal.
+      destruct args as [|x [|y r]]; [exact G| |exact G]. destruct kws; [|exact G].
+      inversion H as [|? ? Hx _]; subst. cbn [forallb] in Ha. apply andb_prop in Ha as [Hax _]. apply (Hx _ (core_cok _ Hax)).
   - (* NamedExpr *) cbn [cok core] in Hc. nrm. rewrite (IHe _ (ecb_cok _ Hc)). reflexivity.
   - (* Lambda *) cbn [cok core] in Hc. apply andb_prop in Hc as [Hc Hckd]. apply andb_prop in Hc as [Hc Hcde].
     apply andb_prop in Hc as [Hc _]. apply andb_prop in Hc as [Hcb Hld]. apply Nat.leb_le in Hld.
@@ -274,6 +278,8 @@ Proof.
   - (* ListComp *) cbn [cok core] in Hc. apply andb_prop in Hc as [Hc Hgs]. apply andb_prop in Hc as [Hx _].
     nrm. rewrite (IHe _ (ecb_cok _ Hx)), (tie_comps gs H Hgs). reflexivity.
   - (* SetComp *) cbn [cok core] in Hc. apply andb_prop in Hc as [Hc Hgs]. apply andb_prop in Hc as [Hx _].
+    nrm. rewrite (IHe _ (ecb_cok _ Hx)), (tie_comps gs H Hgs). reflexivity.
+  - (* GeneratorExp *) cbn [cok] in Hc. unfold gen_core in Hc. apply andb_prop in Hc as [Hc Hgs]. apply andb_prop in Hc as [Hx _].
     nrm. rewrite (IHe _ (ecb_cok _ Hx)), (tie_comps gs H Hgs). reflexivity.
   - (* DictComp *) cbn [cok core] in Hc. apply andb_prop in Hc as [Hc Hgs]. apply andb_prop in Hc as [Hc _]. apply andb_prop in Hc as [Hk Hv].
     nrm. rewrite (IHe1 _ (ecb_cok _ Hk)), (IHe2 _ (ecb_cok _ Hv)), (tie_comps gs H Hgs). reflexivity.
@@ -289,3 +295,16 @@ Proof. intros e H. apply (tie_all e slot_top (core_cok e H)). Qed.
 Theorem roundtrip_unparser_core : forall e, core e = true -> is_starred e = false ->
   exists f0, forall f, f0 <= f -> pc f (MExpr slot_top) (norm (unparse_toks e)) = Some (e, []).
 Proof. intros e Hc Hs. rewrite (norm_unparse_core e Hc). apply roundtrip_core; assumption. Qed.
+
+(* ... and with a generator expression as the whole expression *)
+Lemma core_top_cok e : core_top e = true -> cok e = true.
+Proof.
+  intros H. apply orb_prop in H as [H|H].
+  - apply ecb_cok. exact H.
+  - destruct e; try discriminate H. exact H.
+Qed.
+Theorem norm_unparse_core_top : forall e, core_top e = true -> norm (unparse_toks e) = pp slot_top e.
+Proof. intros e H. apply (tie_all e slot_top (core_top_cok e H)). Qed.
+Theorem roundtrip_unparser_core_top : forall e, core_top e = true ->
+  exists f0, forall f, f0 <= f -> pc f (MExpr slot_top) (norm (unparse_toks e)) = Some (e, []).
+Proof. intros e H. rewrite (norm_unparse_core_top e H). apply roundtrip_core_top; exact H. Qed.
